@@ -255,7 +255,8 @@ SPEC = {
         "inactive_has_no_effect", "inactive_if_not_evaluated", "unmatched_rejected", "well_nested_accepted",
         "tree_lines_are_grammatical", "else_after_else_accepted", "elif_after_else_accepted",
         "dead_elif_is_evaluated", "cond_tables_agree", "cond_parser_total", "cond_parse_eval",
-        "cond_parse_eval_closed", "total_of_no_operands", "total_under_literal_macros",
+        "cond_parse_eval_closed", "cond_parse_tokens", "cond_parse_unambiguous", "cond_rejects_illformed",
+        "total_of_no_operands", "total_under_literal_macros",
         "literalMacros_define", "literalMacros_undef", "literalMacros_nil"]],
     "harness": "c11",
     "nontrivial": nontrivial,
